@@ -17,4 +17,11 @@ int64_t verif_param(const char* name);     // bound chosen by the driver
 void verif_garbage(void* p, uint64_t n);   // the n bytes at p hold arbitrary prior contents
 int verif_same_bytes(const void* p, const void* q, uint64_t n);
 
+// translation validation (C04): a reference interpreter of the Wuffs source (engine/wuffsym) keeps
+// its own receiver; natively the reference values come from the replay file
+void verif_spec_reset(const char* struct_name);
+void verif_spec_set(const char* field, uint64_t idx, uint64_t value);
+uint64_t verif_spec_get(const char* field, uint64_t idx);
+uint64_t verif_spec_call(const char* func, uint64_t a0, uint64_t a1, uint64_t a2, uint64_t a3);
+
 #endif
